@@ -198,7 +198,9 @@ func ruleC11b(c *Ctx, rule string) {
 	// WalkParams must not be used
 	bad := ""
 	nWalk := 0
-	for _, f := range withAnon(pa) {
+	scope := withHelpers(c.P, pa) // pushdownAllowed, its closures and its private helpers
+	c.touch(scope...)
+	for _, f := range scope {
 		for _, call := range calls(f) {
 			cn := calleeName(call)
 			if cn == "invoke (github.com/getlantern/goexpr.Expr).WalkParams" {
@@ -209,13 +211,16 @@ func ruleC11b(c *Ctx, rule string) {
 			}
 		}
 	}
-	c.check(rule, "pushdownAllowed: group-by parameters via WalkOneToOneParams only", pa.Pos(), bad == "" && nWalk >= 2, itoa(nWalk)+" WalkOneToOneParams calls, no WalkParams", "group-by parameters are collected with WalkParams (at "+bad+"): a non-injective function of the partition key (e.g. SUBSTR) would count as 'grouped by the partition key'")
+	c.check(rule, "pushdownAllowed: group-by parameters via WalkOneToOneParams only", pa.Pos(), bad == "" && nWalk >= 1, itoa(nWalk)+" WalkOneToOneParams calls, no WalkParams", "group-by parameters are collected with WalkParams (at "+bad+"): a non-injective function of the partition key (e.g. SUBSTR) would count as 'grouped by the partition key'")
 	// closures: the MapUpdate is guarded by parentGroupByAll || parentGroupParams[name]
 	nCl := 0
-	for _, f := range pa.AnonFuncs {
+	for _, f := range scope {
+		if f.Parent() == nil {
+			continue
+		}
 		for _, in := range instrs(f) {
 			mu, ok := in.(*ssa.MapUpdate)
-			if !ok {
+			if !ok || typeStr(mu.Map.Type()) != "map[string]bool" {
 				continue
 			}
 			nCl++
@@ -247,7 +252,10 @@ func ruleC11b(c *Ctx, rule string) {
 			c.check(rule, "pushdownAllowed: a parameter counts only if the enclosing level kept it", mu.Pos(), all && complete && np > 0, "groupParams[param] = true only under parentGroupByAll || parentGroupParams[groupBy.Name]", "a nested level can re-introduce a partition key that an enclosing GROUP BY dropped: the query is pushed down although outer groups span partitions")
 		}
 	}
-	c.floor(rule, "parameter-collecting closures in pushdownAllowed", nCl, 2)
+	c.floor(rule, "parameter-collecting closures in pushdownAllowed", nCl, 1)
+	if nCl != nWalk {
+		c.undecided(rule, "every WalkOneToOneParams callback records parameters under the enclosing-level guard", pa.Pos(), itoa(nWalk)+" WalkOneToOneParams call(s) but "+itoa(nCl)+" guarded parameter-recording closure(s)")
+	}
 	// return true blocks
 	isTrueRet := func(b *ssa.BasicBlock) bool {
 		if len(b.Instrs) == 0 {
@@ -461,9 +469,11 @@ func ruleC11e(c *Ctx, rule string) {
 		return
 	}
 	var walk ssa.CallInstruction
-	for _, call := range calls(pa) {
-		if calleeName(call) == "invoke (github.com/getlantern/goexpr.Expr).WalkLists" && isFieldLoad(call.Common().Value, "z/sql.Query.Where") {
-			walk = call
+	for _, f := range withHelpers(c.P, pa) {
+		for _, call := range calls(f) {
+			if calleeName(call) == "invoke (github.com/getlantern/goexpr.Expr).WalkLists" && isFieldLoad(resolveVal(c.P, call.Common().Value, pa), "z/sql.Query.Where") {
+				walk = call
+			}
 		}
 	}
 	if walk == nil {
@@ -490,12 +500,41 @@ func ruleC11e(c *Ctx, rule string) {
 			flag = nil
 		}
 	}
+	isFlagLoad := func(v ssa.Value) bool {
+		u, isU := v.(*ssa.UnOp)
+		return isU && u.Op == token.MUL && cellRoot(u.X) == flag
+	}
+	// where the outcome is tested in pushdownAllowed: a load of the flag, or — when
+	// the walk lives in a helper — the result of that helper, which returns the flag
+	host := walk.Parent()
+	for host.Parent() != nil {
+		host = host.Parent()
+	}
+	site := walk.Block()
+	isOutcome := isFlagLoad
+	if host != pa && flag != nil {
+		retsFlag := true
+		for _, in := range instrs(host) {
+			if r, isR := in.(*ssa.Return); isR && (len(r.Results) != 1 || !isFlagLoad(r.Results[0])) {
+				retsFlag = false
+			}
+		}
+		if !retsFlag {
+			flag = nil
+		}
+		isOutcome = func(v ssa.Value) bool {
+			call, isC := v.(*ssa.Call)
+			return isC && call.Call.StaticCallee() == host
+		}
+		for _, call := range calls(pa) {
+			if call.Common().StaticCallee() == host {
+				site = call.Block()
+			}
+		}
+	}
 	ok := false
 	if flag != nil {
-		for _, ci := range findIfs(pa, func(v ssa.Value) bool {
-			u, isU := v.(*ssa.UnOp)
-			return isU && u.Op == token.MUL && cellRoot(u.X) == flag
-		}) {
+		for _, ci := range findIfs(pa, isOutcome) {
 			leak := false
 			for bb := range reach([]*ssa.BasicBlock{ci.succFor(true)}, nil, nil) {
 				if len(bb.Instrs) > 0 {
@@ -512,6 +551,6 @@ func ruleC11e(c *Ctx, rule string) {
 		}
 	}
 	// it must apply to nested levels (not only the outermost): the walk is inside the loop over FromSubQuery levels
-	inLoop := len(loopsContaining(pa, walk.Block())) > 0
+	inLoop := site.Parent() == pa && len(loopsContaining(pa, site)) > 0
 	c.check(rule, "pushdownAllowed: nested IN-subqueries forbid pushdown", walk.Pos(), ok && inLoop, "a nested level whose WHERE contains a *sql.SubQuery returns false", "the nested IN-subquery test does not prevent 'return true'")
 }
